@@ -75,4 +75,56 @@ Definition run (x : sx) : sx :=
   | _ => sx_id "badcase"
   end.
 
-Definition run_line : bytes -> bytes := run_line_with run.
+(* The printer of the answer.  [Sx.sx_print] computes [sx_print y ++ x20 :: go l']: the extracted [app] recurses (not in tail
+   position) over its LEFT operand, which for the item "document after build_outline" is the whole printed document -- one
+   native stack frame per byte of the answer.  A forest of ~2000 bookmarks prints to ~700 kB and the extracted runner died
+   with Stack_overflow under the usual 8 MB stack ("model-stack-overflow" != the implementation's answer: a false alarm of the
+   thorough tier; the model's VALUE was the implementation's, see notes/C17.md).  [sx_print_onto] prints onto an accumulator:
+   [app] only ever runs over one atom, the recursion depth is (nesting of the answer) + (length of its longest lists), i.e.
+   a few thousand frames for a few thousand objects.  [run_line_eq]: it is the same function as [run_line_with run]. *)
+Fixpoint sx_print_onto (x : sx) (acc : bytes) : bytes :=
+  match x with
+  | SA a => a ++ acc
+  | SL l =>
+    x28 :: (fix go (l : list sx) : bytes :=
+              match l with
+              | [] => x29 :: acc
+              | [y] => sx_print_onto y (x29 :: acc)
+              | y :: l' => sx_print_onto y (x20 :: go l')
+              end) l
+  end.
+
+Definition run_line (line : bytes) : bytes :=
+  match sx_parse line with
+  | Some [x] => sx_print_onto (run x) []
+  | _ => bs "(badline)"
+  end.
+
+Fixpoint sx_size (x : sx) : nat :=
+  match x with
+  | SA _ => 1
+  | SL l => S ((fix go (l : list sx) : nat := match l with [] => 0 | y :: l' => sx_size y + go l' end) l)
+  end.
+
+Lemma sx_print_onto_eq_n : forall n x acc, (sx_size x <= n)%nat -> sx_print_onto x acc = sx_print x ++ acc.
+Proof.
+  induction n as [|n IH]; intros x acc Hn.
+  - destruct x; cbn in Hn; inversion Hn.
+  - destruct x as [a|l]; [reflexivity|].
+    cbn [sx_print_onto sx_print]. rewrite <- app_comm_cons. f_equal.
+    cbn [sx_size] in Hn. apply le_S_n in Hn.
+    revert Hn. induction l as [|y l' IHl]; intros Hn; [reflexivity|].
+    assert (Hy : (sx_size y <= n)%nat) by (eapply Nat.le_trans; [apply Nat.le_add_r|exact Hn]).
+    assert (Hl : ((fix go (l : list sx) : nat := match l with [] => 0%nat | y :: l' => (sx_size y + go l')%nat end) l' <= n)%nat)
+      by (eapply Nat.le_trans; [|exact Hn]; rewrite Nat.add_comm; apply Nat.le_add_r).
+    destruct l' as [|z l''].
+    + rewrite (IH y _ Hy), <- app_assoc. reflexivity.
+    + rewrite (IH y _ Hy), <- app_assoc. cbn [app]. do 2 f_equal. exact (IHl Hl).
+Qed.
+
+Lemma run_line_eq : forall line, run_line line = run_line_with run line.
+Proof.
+  intro line. unfold run_line, run_line_with.
+  destruct (sx_parse line) as [[|x [|? ?]]|]; try reflexivity.
+  rewrite (sx_print_onto_eq_n (sx_size (run x)) (run x) [] (Nat.le_refl _)). apply app_nil_r.
+Qed.
